@@ -73,10 +73,11 @@ pub fn expected_probes(name: &str) -> Vec<&'static str> {
         "c17-bridge" => vec!["undecodable_line_at_bridge", "bridge_wrote_reply", "bridge_silent_no_reply", "eintr", "short_write"],
         "c14-shared-bus" => vec!["two_signs_in_PixelsInProgress", "chunk_absorbed_by_two_signs", "absent_address", "reply_from_sign_index_ge_1", "task_switches"],
         "c02-wire-damage" => vec!["ok_same_frame_case_change", "ok_same_frame_terminator_only", "err_invalid", "err_length", "err_checksum", "variants_through_stream_reader", "lf_inserted_mid_line"],
-        "c15-read" => vec!["eintr", "eof", "io_error", "eintr_mid_line", "line_without_lf_at_eof", "line_ending_in_cr_at_eof", "error_at_first_call", "error_at_last_call", "hard_error_placements", "eintr_placements"],
+        "c15-read" => vec!["eintr", "eof", "io_error", "eintr_mid_line", "line_without_lf_at_eof", "line_ending_in_cr_at_eof", "frame_text_with_near_miss_line_ending", "error_at_first_call", "error_at_last_call", "hard_error_placements", "eintr_placements"],
         "c15-write" => vec!["eintr", "short_write", "io_error", "write_zero", "short_write_1_byte", "hard_error_placements", "write_zero_placements", "eintr_placements", "one_byte_write_placements"],
         "c15-compositions" => vec!["compositions_enumerated"],
         "c16-serial-exchange" => vec!["eintr", "short_write", "io_error", "timeout", "eof", "unknown_that_looks_like_hello", "fault_at_each_op_index"],
+        "c20-port-setup" => vec!["transient_refusal", "configured_twice", "prior_speed_unreported"],
         "c18-pacing" => vec!["chunk_followed_by_paced_write", "in_progress_report_paced"],
         "c10-adversarial-bus" => vec!["bus_error", "conversation_ge_10_turns", "polled_3_or_more_times", "foreign_reply_at:Hello1", "foreign_reply_at:ResultQuery", "foreign_reply_at:Poll", "foreign_reply_at:RequestAck", "foreign_reply_at:CinHello", "foreign_reply_at:FinalQuery"],
         "c11-adversarial-bus" => vec![
